@@ -521,6 +521,9 @@ def b_print(c):
             while is_call(inner, ("builtin:str", "builtin:format")) and inner[2]:
                 inner = inner[2][0]
             conds = [("notok", CallT("ext:bytes.fromhex", [inner]))] if is_param_rooted(inner) and not is_const(inner) else []
+            if inner[0] == "param":
+                # the whole text is an argument of this helper: the caller knows what it is made of
+                conds = [("unsafe-text", inner)]
             c.rz("UnicodeEncodeError", "print of text that may not be encodable on stdout", conds, pure=False)
     c.ret(C(None), pure=False, state=s1)
 
